@@ -93,6 +93,11 @@ one-byte mutants, and `DurT.format` with `json.EncodeDuration` / `Duration.Strin
 theorem duration_rt (d : Int) (hlo : -9223372036854775808 ≤ d) (hhi : d < 9223372036854775808) :
     DurT.value (DurT.format d) = some d := DurT.value_format d hlo hhi
 
+/-- different durations have different texts -/
+theorem duration_text_injective (d₁ d₂ : Int) (h₁ : -9223372036854775808 ≤ d₁ ∧ d₁ < 9223372036854775808)
+    (h₂ : -9223372036854775808 ≤ d₂ ∧ d₂ < 9223372036854775808) (h : DurT.format d₁ = DurT.format d₂) : d₁ = d₂ :=
+  DurT.format_injective d₁ d₂ h₁ h₂ h
+
 /-- the fraction is written without trailing zeros and never as a bare point: no digits iff the remainder is 0 -/
 theorem duration_fraction_canonical (v prec : Nat) :
     (DurT.fracDigits v prec = [] ↔ v % 10 ^ prec = 0) ∧ (DurT.fracDigits v prec).length ≤ prec :=
